@@ -60,15 +60,18 @@ for pid in sorted(P):
                   'C04': ' and, for Decoder.decode with decode_integer, decode_huffman and the table methods it calls, by a source-to-Lean translation proved equal to the model (Props.SrcDec, Props.Src, Props.SrcHuff, Props.SrcTable)',
                   'C05': ' and, for Decoder.decode with decode_integer, decode_huffman and the table methods it calls, by a source-to-Lean translation proved equal to the model (Props.SrcDec, Props.Src, Props.SrcHuff, Props.SrcTable)',
                   'C07': ' and, for Decoder.decode, by a source-to-Lean translation proved equal to the model (Props.SrcDec)',
-                  'C15': ' and, for the decoder side, by a source-to-Lean translation proved equal to the model (Props.SrcDec)',
+                  'C15': ' and, for Encoder.add and the decoder side, by a source-to-Lean translation proved equal to the model (Props.SrcEnc, Props.SrcDec)',
                   'C17': ' and, for Decoder.decode, by a source-to-Lean translation proved equal to the model (Props.SrcDec)',
                   'C13': ' and, for decode_huffman, by a source-to-Lean translation proved equal to the model (Props.SrcHuff)',
                   'C16': ' and, for decode_integer and its cap, by a source-to-Lean translation proved equal to the model (Props.Src)',
+                  'C03': ' and, for Encoder.add and the representations it emits (HeaderTable.search included), by a source-to-Lean translation proved equal to the model (Props.SrcEnc, Props.SrcTable)',
+                  'C09': ' and, for the header_table_size setter and _encode_table_size_change, by a source-to-Lean translation proved equal to the model (Props.SrcEnc)',
+                  'C01': ' and, for Encoder.add and Decoder.decode, by a source-to-Lean translation proved equal to the model (Props.SrcEnc, Props.SrcDec)',
                   'C06': ' and, for HeaderTable.add/_shrink/maxsize, by a source-to-Lean translation proved equal to the model (Props.SrcTable)',
                   'C14': ' and, for HeaderTable.get_by_index, by a source-to-Lean translation proved equal to the model (Props.SrcTable)',
                   'C08': ' and, for Decoder.decode and the table setter, by a source-to-Lean translation proved equal to the model (Props.SrcDec, Props.SrcTable)',
                   'C10': ' and, for the table operations, by a source-to-Lean translation proved equal to the model (Props.SrcTable)',
-                  'C19': ' and, for the table operations, by a source-to-Lean translation proved equal to the model (Props.SrcTable)'}.get(pid, '')),
+                  'C19': ' and, for Encoder.add and HeaderTable.search, by a source-to-Lean translation proved equal to the model (Props.SrcEnc, Props.SrcTable)'}.get(pid, '')),
     })
 m = {
     'version': 1,
@@ -81,7 +84,7 @@ m = {
         'add_only': True,
     },
     'engines': [{'name': 'lean4-proof+correspondence', 'path': 'check', 'serves_properties': sorted(P),
-                 'kind_free_text': 'Lean 4 kernel-checked theorems about a model of the code; translator (data; and source text -> Lean for the integer codec, decode_huffman, HeaderTable and the Decoder class, proved equal to the model) + line-protocol correspondence (logic) tie the model to /repo on every run'}],
+                 'kind_free_text': 'Lean 4 kernel-checked theorems about a model of the code; translator (data; and source text -> Lean for the integer codec, decode_huffman, HeaderTable, the Decoder class and Encoder.add, proved equal to the model) + line-protocol correspondence (logic) tie the model to /repo on every run'}],
     'checks': checks,
     'not_applicable': [],
     'notes': 'Genuine defects D1-D4 were repaired by fix: commits in /repo (known_findings.json, fixed entries); D5 (C09) is a known finding. See DESIGN.md.',
